@@ -552,6 +552,7 @@ struct Outcome {
     final_frames: usize,
     big_lines: Vec<usize>,
     hook_points: u64,
+    parsed: Option<(Vec<u8>, Vec<Hdr>)>, // the log (bytes, frames) as it was after the last call
 }
 
 // ---------- monitor inside EventLog::append (rip_kernel::verif hook, points log.*) ----------
@@ -674,8 +675,14 @@ fn tree_diff(a: &std::collections::BTreeMap<String, (u64, u64)>, b: &std::collec
 /// One call on the real store + the independent oracle around it.
 fn apply_call(env: &mut Env, call: &Call, out: &mut Outcome, dist: &mut Option<&mut RunResult>) {
     let before = env.log_bytes();
-    let hs = parse_log(&before).unwrap_or_default();
-    let tree_before = tree_snapshot(&env.root);
+    // the log as parsed at the end of the previous call is reused when the bytes are the same
+    let hs = match out.parsed.take() {
+        Some((b, h)) if b == before => h,
+        _ => parse_log(&before).unwrap_or_default(),
+    };
+    // (the snapshot of everything else on disk is only needed for calls aimed at an id that names no thread)
+    let unknown_target = matches!(call, Call::Cap { th, cp, .. } if *th >= created_ids(&hs).len() && !matches!(cp, Cp::EnsureDefault | Cp::List | Cp::Subscribe));
+    let tree_before = if unknown_target { tree_snapshot(&env.root) } else { Default::default() };
     let mut silent_req = false;
     let mut name = String::new();
     // independent judgement of "nothing to do" for auto / auto-schedule: no cut point of the requested
@@ -797,7 +804,8 @@ fn apply_call(env: &mut Env, call: &Call, out: &mut Outcome, dist: &mut Option<&
         return;
     }
     let suffix = &after[before.len()..];
-    match parse_log(suffix) {
+    let parsed_suffix = parse_log(suffix);
+    match &parsed_suffix {
         Err(e) => out.violations.push((format!("{name}: appended bytes are not whole frames: {e}"), "partial_frame_appended".into())),
         Ok(fs) => {
             if silent_req && !fs.is_empty() {
@@ -822,18 +830,25 @@ fn apply_call(env: &mut Env, call: &Call, out: &mut Outcome, dist: &mut Option<&
     // data/continuity_streams/ and nothing else: a file created or changed anywhere else was reached
     // through the caller's id (`../x`), the same primitive that hits the truth log for `../events`.
     // (Calls on existing threads are not held to this: C02 speaks about events.jsonl only.)
-    let unknown_target = matches!(call, Call::Cap { th, cp, .. } if *th >= created_ids(&hs).len() && !matches!(cp, Cp::EnsureDefault | Cp::List | Cp::Subscribe));
     if unknown_target {
         out.oracle_checks += 1;
         if let Some(d) = tree_diff(&tree_before, &tree_snapshot(&env.root)) {
             out.violations.push((format!("{name}: a call aimed at an id that names no thread {d} outside data/continuity_streams/"), "thread_id_escapes_cache_dir".into()));
         }
     }
-    out.obs.push(parse_log(&after).map(|h| h.len() as u64).unwrap_or(0));
+    match parsed_suffix {
+        Ok(fs) if before.is_empty() || !hs.is_empty() => {
+            let mut all = hs;
+            all.extend(fs);
+            out.obs.push(all.len() as u64);
+            out.parsed = Some((after, all));
+        }
+        _ => out.obs.push(parse_log(&after).map(|h| h.len() as u64).unwrap_or(0)),
+    }
 }
 
 fn new_outcome() -> Outcome {
-    Outcome { obs: vec![], coq_calls: vec![], violations: vec![], unmodelled: false, appended_by_silent: 0, oracle_checks: 0, final_frames: 0, big_lines: vec![], hook_points: 0 }
+    Outcome { obs: vec![], coq_calls: vec![], violations: vec![], unmodelled: false, appended_by_silent: 0, oracle_checks: 0, final_frames: 0, big_lines: vec![], hook_points: 0, parsed: None }
 }
 
 fn run_case(calls: &[Call], dist: Option<&mut RunResult>) -> Outcome {
@@ -978,6 +993,9 @@ fn sweep_states() -> Vec<(&'static str, Vec<Call>)> {
         ("inflight_job_clock_1h_behind", with(&inflight, vec![Call::Age { ms: -HOUR }])),
         ("job_ended_then_new_backlog_aged_1d", with(&ended, vec![Call::Age { ms: 24 * HOUR }])),
         ("all_cut_points_checkpointed_aged_1h", with(&done, vec![Call::Age { ms: HOUR }])),
+        ("base_cursor_and_checkpoint_aged_400d", with(&base, vec![Call::Age { ms: 400 * 24 * HOUR }])),
+        // the comp sidecar unparsable in its last line (a crash inside append_compaction_checkpoints_best_effort_v1)
+        ("all_cut_points_checkpointed_comp_sidecar_torn_restart", with(&done, vec![Call::CacheFault { file: CFile::Comp, kind: CKind::TornLastLine, th: 0 }, Call::Restart])),
     ]
 }
 const HOUR: i64 = 3_600_000;
@@ -1062,7 +1080,7 @@ fn id_sweep() -> Vec<Call> {
     c
 }
 
-fn sweep_cases() -> Vec<(String, Vec<Call>)> {
+fn sweep_cases(thorough: bool) -> Vec<(String, Vec<Call>)> {
     let mut out = vec![];
     for (name, setup) in sweep_states() {
         let th = if name == "children_inflight_on_child" { 1 } else { 0 };
@@ -1102,7 +1120,7 @@ fn sweep_cases() -> Vec<(String, Vec<Call>)> {
         }
     }
     out.extend(product_cases());
-    out.extend(noop_fault_cases());
+    out.extend(noop_fault_cases(thorough));
     out
 }
 
@@ -1110,7 +1128,7 @@ fn sweep_cases() -> Vec<(String, Vec<Call>)> {
 /// invocations without dry_run (and the readers the planner is made of).  The caches are healed
 /// (all removed, rebuilt by reads) before each (file, fault) group; the fault is applied again before
 /// every call.
-fn noop_fault_cases() -> Vec<(String, Vec<Call>)> {
+fn noop_fault_cases(thorough: bool) -> Vec<(String, Vec<Call>)> {
     let ensure = || cap(Cp::EnsureDefault, 0, Params::default());
     let mut a = vec![ensure()];
     a.extend(msgs(0, 6));
@@ -1126,7 +1144,24 @@ fn noop_fault_cases() -> Vec<(String, Vec<Call>)> {
     c3.push(cap(Cp::AutoSchedule, 0, Params { stride: Some(2), max_new: Some(1), execute: Some(false), ..Default::default() }));
     c3.push(cap(Cp::Auto, 0, Params { stride: Some(2), max_new: Some(33), ..Default::default() }));
     let mut out = vec![];
-    for (cname, setup, stride) in [("auto_stride2_6msgs", a, 2u64), ("schedule_stride3_7msgs_cursor", b, 3), ("unrun_job_then_auto_stride2_4msgs", c3, 2)] {
+    let mut contents = vec![("auto_stride2_6msgs", a, 2u64), ("schedule_stride3_7msgs_cursor", b, 3), ("unrun_job_then_auto_stride2_4msgs", c3, 2)];
+    if thorough {
+        // more cut points than one call looks at: 70 messages, stride 2 = 35 cut points, the planner sees the
+        // newest 32 - once those are covered nothing is to do although 3 old cut points have no checkpoint
+        let mut d = vec![ensure()];
+        d.extend(msgs(0, 70));
+        d.push(cap(Cp::Auto, 0, Params { stride: Some(2), max_new: Some(33), ..Default::default() }));
+        contents.push(("more_cut_points_than_the_planner_window_70msgs", d, 2));
+        // every message a cut point (stride 1), checkpoints made one by one by the scheduler, frames of other kinds in between
+        let mut e = vec![ensure()];
+        for i in 0..5u64 {
+            e.extend(msgs(0, 1));
+            e.push(cap(Cp::Append(if i % 2 == 0 { 8 } else { 14 }), 0, Params::default()));
+            e.push(cap(Cp::AutoSchedule, 0, Params { stride: Some(1), max_new: Some(1), execute: Some(true), block: Some(false), ..Default::default() }));
+        }
+        contents.push(("stride1_scheduler_one_by_one_5msgs", e, 1));
+    }
+    for (cname, setup, stride) in contents {
         for file in CFILES {
             let mut c = setup.clone();
             for kind in CKINDS {
@@ -1466,7 +1501,9 @@ struct Req {
     unknown_id: bool,
 }
 
-fn router_requests(known: Option<&String>, full: bool) -> Vec<Req> {
+/// `noop_strides`: strides for which the known thread has nothing to do (judged by the harness's planner on the
+/// truth log): compaction-auto / compaction-auto-schedule WITHOUT dry_run must add nothing for them
+fn router_requests(known: Option<&String>, full: bool, known_only: bool, noop_strides: &[u64]) -> Vec<Req> {
     let mut v = vec![];
     let get = |uri: String| Req { method: "GET", uri, body: None, silent: true, unknown_id: false };
     let post = |uri: String, body: serde_json::Value, silent: bool| Req { method: "POST", uri, body: Some(body.to_string()), silent, unknown_id: false };
@@ -1479,7 +1516,7 @@ fn router_requests(known: Option<&String>, full: bool) -> Vec<Req> {
     }
     for i in 0..UNKNOWN_IDS.len() as u64 {
         let id = unknown_id(i, known);
-        if id.len() < 3000 {
+        if id.len() < 3000 && !known_only {
             ids.push((id, false));
         }
     }
@@ -1521,6 +1558,18 @@ fn router_requests(known: Option<&String>, full: bool) -> Vec<Req> {
                 }
             }
         }
+        // nothing to do by the truth log: no dry_run, still nothing may be added
+        if *is_known {
+            for st in noop_strides {
+                for mx in [json!(null), json!(33)] {
+                    v.push(post(format!("/threads/{e}/compaction-auto"), with(json!({"stride_messages": st, "max_new_checkpoints": mx})), true));
+                    v.push(post(format!("/threads/{e}/compaction-auto"), with(json!({"stride_messages": st, "max_new_checkpoints": mx, "dry_run": false})), true));
+                    for (bl, ex) in [(json!(null), json!(null)), (json!(false), json!(true)), (json!(true), json!(false)), (json!(false), json!(false))] {
+                        v.push(post(format!("/threads/{e}/compaction-auto-schedule"), with(json!({"stride_messages": st, "max_new_checkpoints": mx, "block_on_inflight": bl, "execute": ex})), true));
+                    }
+                }
+            }
+        }
         // the no-op: stride 0 without dry_run
         v.push(post(format!("/threads/{e}/compaction-auto"), with(json!({"stride_messages": 0})), true));
         v.push(post(format!("/threads/{e}/compaction-auto-schedule"), with(json!({"stride_messages": 0})), true));
@@ -1556,9 +1605,9 @@ fn router_requests(known: Option<&String>, full: bool) -> Vec<Req> {
 fn router_cases(a: &Args, res: &mut RunResult, base_id: i64) {
     let states = sweep_states();
     let pick: &[&str] = if a.thorough() {
-        &["empty_store", "base", "inflight_job", "inflight_job_caches_deleted_restart", "backlog_larger_than_max_new", "all_cut_points_checkpointed", "base_torn_sidecar_restart", "children_inflight_on_child"]
+        &["empty_store", "base", "inflight_job", "inflight_job_caches_deleted_restart", "backlog_larger_than_max_new", "all_cut_points_checkpointed", "base_torn_sidecar_restart", "children_inflight_on_child", "all_cut_points_checkpointed_comp_sidecar_torn_restart", "inflight_job_aged_1h", "all_cut_points_checkpointed_aged_1h", "base_cursor_and_checkpoint_aged_400d"]
     } else {
-        &["base", "inflight_job", "inflight_job_caches_deleted_restart"]
+        &["base", "inflight_job", "inflight_job_caches_deleted_restart", "all_cut_points_checkpointed_comp_sidecar_torn_restart", "inflight_job_aged_1h"]
     };
     let rt = tokio::runtime::Builder::new_multi_thread().worker_threads(2).enable_all().build().expect("runtime");
     for (k, name) in pick.iter().enumerate() {
@@ -1574,7 +1623,18 @@ fn router_cases(a: &Args, res: &mut RunResult, base_id: i64) {
         let known = created_ids(&parse_log(&env.log_bytes()).unwrap_or_default()).first().cloned();
         drop(env);
         let before_build = std::fs::read(&log_path).unwrap_or_default();
-        let reqs = router_requests(known.as_ref(), k == 0 || a.thorough() || *name == "inflight_job");
+        // strides for which the default thread has nothing to do, by the harness's planner on the truth log
+        let hs_now = parse_log(&before_build).unwrap_or_default();
+        let noop_strides: Vec<u64> = match &known {
+            Some(id) => {
+                let stream: Vec<&Hdr> = hs_now.iter().filter(|h| h.kind == rip_kernel::StreamKind::Continuity && &h.sid == id).collect();
+                [1u64, 2, 3, 4, 10_000].iter().copied().filter(|st| ref_unplanned(&stream, Some(*st)) == 0).collect()
+            }
+            None => vec![],
+        };
+        res.bump_by("router_nothing_to_do_strides", noop_strides.len() as u64);
+        let second_round = name.contains("aged") || name.contains("comp_sidecar");
+        let reqs = router_requests(known.as_ref(), k == 0 || a.thorough() || *name == "inflight_job" || second_round, second_round && !a.thorough(), &noop_strides);
         let case_id = base_id + k as i64;
         let mut viol: Vec<(String, String, serde_json::Value)> = vec![];
         let mut checks = 0u64;
@@ -1591,7 +1651,7 @@ fn router_cases(a: &Args, res: &mut RunResult, base_id: i64) {
                 }
                 for rq in &reqs {
                     let before = std::fs::read(&log_path).unwrap_or_default();
-                    let tree_before = tree_snapshot(&root);
+                    let tree_before = if rq.unknown_id { tree_snapshot(&root) } else { Default::default() };
                     let b = axum::http::Request::builder().method(rq.method).uri(rq.uri.as_str());
                     let built = match &rq.body {
                         Some(t) => b.header("content-type", "application/json").body(axum::body::Body::from(t.clone())),
@@ -1851,7 +1911,7 @@ fn main() {
     let mut w = CaseWriter::new(&a.out, "Model.Frames Model.Log Model.ContStore Model.LogBytes Model.C02Cases", "check_case_c02x", "model_obs_c02x", 8);
     let mut distinct = Distinct::default();
     install_hook();
-    let mut all: Vec<(String, Vec<Call>)> = sweep_cases();
+    let mut all: Vec<(String, Vec<Call>)> = sweep_cases(a.thorough());
     for i in 0..n {
         all.push((format!("random/{i}"), gen_case(&mut r, i % 8 == 7)));
     }
